@@ -209,11 +209,17 @@ pub fn client_core_data(parameter: Option<ClientData>) -> Component {
             name: "".to_string()
         });
 
-    let client_name = if client_parameter.name.len() >= 16 {
-        (&client_parameter.name[0..16]).to_string()
-    } else {
-        client_parameter.name.clone() + &"\x00".repeat(16 - client_parameter.name.len())
-    };
+    // clientName is a fixed field of 32 bytes : up to 15 UTF-16 code units plus a null terminator
+    let mut client_name = String::new();
+    let mut client_name_units = 0;
+    for c in client_parameter.name.chars() {
+        if client_name_units + c.len_utf16() > 15 {
+            break;
+        }
+        client_name_units += c.len_utf16();
+        client_name.push(c);
+    }
+    client_name += &"\x00".repeat(16 - client_name_units);
 
     component![
         "version" => U32::LE(client_parameter.rdp_version as u32),
